@@ -807,3 +807,8 @@ NOT_PROVED = list(NOT_PROVED) + [
     "(at 2^24+1 Rust answers Ok(4096) and the model panics); theorems quantifying over the length hold for the code only for fewer than 2^24 elements",
     "Matrix::lu, Matrix::det, lu_det, the Matrix substitutions, ipiv_parity, is_symmetric and is_square are hand-modelled and tied by run-time bit-exact correspondence only (the slice-level routines are additionally regenerated from the Rust text)",
 ]
+
+# --- review repairs in the Rounding layer (renamed stdmodel_* theorems, underflow-aware variants, genuine FlModel instance; wired by the lead)
+PROOF_MODULES = PROOF_MODULES + [m for m in ['Compute.Lemmas.FlModelGrid', 'Compute.Props.RoundingGrid'] if m not in PROOF_MODULES]
+REQUIRED_THEOREMS = REQUIRED_THEOREMS + [t for t in ['Cv.FlModel.grid_abs_sub_le', 'Cv.FlModel.grid_idem', 'Cv.FlModel.grid_mono', 'Cv.FlModel.grid_rnd_one', 'Cv.FlModel.grid_rnd_natCast', 'Cv.FlModel.grid_rnd_dyadic', 'Cv.FlModel.f64grid_u', 'Cv.FlModel.f64grid_mono'] if t not in REQUIRED_THEOREMS]
+NOT_PROVED = list(NOT_PROVED) + ['FlModel has a genuine instance, FlModel.grid p (radix 2, p digits, round to nearest, unbounded exponent; f64grid has u = 2^-53), proved to satisfy the standard model and to be idempotent and monotone, with integers <= 2^p and dyadics exact (Lemmas/FlModelGrid); headline rounding theorems are instantiated on it (Props/RoundingGrid); overflow and underflow remain outside the model']
